@@ -1,11 +1,28 @@
+# reserved keys of the compressed formats
+STEPS_KEY = "__steps__"   # the step (time) that belongs to each position of the value lists
+RAW_KEY = "__raw__"       # a settings log that cannot be stored positionally is kept as it is
+
+
+def _settings_shape(step_settings):
+    return {manager: {scenario: {value_type: sorted(values.keys()) for value_type, values in types.items()}
+                      for scenario, types in scenarios.items()}
+            for manager, scenarios in step_settings.items()}
+
+
 def compress_settings(settings):
+    # The positional format needs every step to carry values for the same names. Steps that were run without
+    # settings (None or {}) or with differing names cannot be represented by it: such logs stay uncompressed.
+    steps = list(settings.keys())
+    if any(not settings[step] for step in steps):
+        return {RAW_KEY: settings}
+    shapes = [_settings_shape(settings[step]) for step in steps]
+    if any(shape != shapes[0] for shape in shapes):
+        return {RAW_KEY: settings}
+
     #           scenario_manager: scenario: value_type:  value: [float]
     scenario_managers = dict[str, dict[str, dict[str, dict[str, [float]]]]]()
         
     for step in settings.keys():
-        # a step that was run without settings (no request body) is logged as None
-        if settings[step] is None:
-            continue
         # loop over all scenario managers in the step
         for scenario_manager_name in settings[step]:
             scenario_manager = settings[step][scenario_manager_name]
@@ -33,6 +50,8 @@ def compress_settings(settings):
                             current_scenario_transformed[value_type][constant] = [constant_value]
                         else:
                             current_scenario_transformed[value_type][constant].append(constant_value)
+    if len(steps) > 0:
+        scenario_managers[STEPS_KEY] = steps
     return scenario_managers
 
 
@@ -63,20 +82,27 @@ def compress_results(results):
                         current_scenario_transformed[constant] = [constant_value]
                     else:
                         current_scenario_transformed[constant].append(constant_value)
+    if len(results) > 0:
+        scenario_managers[STEPS_KEY] = list(results.keys())
     return scenario_managers
 
 def decompress_settings(settings):
     #               step: scenarioManager:  scenario:    constants:   constant: value
+    if RAW_KEY in settings:
+        return settings[RAW_KEY]
+    steps = settings.get(STEPS_KEY)
     result = dict[str, dict[str, dict[str, dict[str, dict[str, float]]]]]()
     
     for scenario_manager_name in settings.keys():
+        if scenario_manager_name == STEPS_KEY:
+            continue
         for scenario_name in settings[scenario_manager_name]:
             for value_type in settings[scenario_manager_name][scenario_name]:
                 for constant_name in settings[scenario_manager_name][scenario_name][value_type]:
                     constant = settings[scenario_manager_name][scenario_name][value_type][constant_name]
                     for i in range(1, len(constant) + 1):
-                        # converts int to float in x.0 format (e.g. 3 -> 3.0)
-                        step_str = f"{i:.1f}"
+                        # the recorded step; data written by older versions has none and is numbered 1.0, 2.0, ...
+                        step_str = steps[i - 1] if steps is not None else f"{i:.1f}"
                         
                         if not step_str in result:
                             result[step_str] = dict()
@@ -100,15 +126,18 @@ def decompress_settings(settings):
 
 def decompress_results(results):
     #               step: scenarioManager:  scenario:    constants:   constant: value
+    steps = results.get(STEPS_KEY)
     result = dict[str, dict[str, dict[str, dict[str, dict[str, float]]]]]()
     
     for scenario_manager_name in results.keys():
+        if scenario_manager_name == STEPS_KEY:
+            continue
         for scenario_name in results[scenario_manager_name]:
             for constant_name in results[scenario_manager_name][scenario_name]:
                 constant = results[scenario_manager_name][scenario_name][constant_name]
                 for i in range(1, len(constant) + 1):
-                    # converts int to float in x.0 format (e.g. 3 -> 3.0)
-                    step_str = f"{i:.1f}"
+                    # the recorded step; data written by older versions has none and is numbered 1.0, 2.0, ...
+                    step_str = steps[i - 1] if steps is not None else f"{i:.1f}"
                     
                     if not step_str in result:
                         result[step_str] = dict()
